@@ -105,7 +105,7 @@ var aWeights = map[string]map[string]int{
 	"C03": {"honest": 8, "fork": 4, "baddelta": 6, "window": 3, "loop": 3, "replay": 3, "dupcreate": 1, "unauth": 2},
 	"C04": {"honest": 8, "deactivate": 4, "recover": 4, "fork": 3, "stale": 4, "replay": 3, "unauth": 2, "dupcreate": 2},
 	"C05": {"honest": 4, "window": 12, "fork": 1},
-	"C06": {"honest": 8, "fork": 3, "baddelta": 2, "unauth": 2, "replay": 2, "dupcreate": 1, "window": 2},
+	"C06": {"honest": 8, "fork": 3, "baddelta": 2, "unauth": 2, "replay": 2, "dupcreate": 1, "window": 2, "unpub": 2},
 	"C12": {"honest": 6, "loop": 10, "fork": 2, "replay": 2},
 }
 
@@ -1734,10 +1734,15 @@ func (w *aWorld) oracleTimeTravel() {
 			w.k.Count("probe:history-partly-as-additional-operations")
 		}
 
-		return processor.New("split", tmp, w.pc), append(opts, document.WithAdditionalOperations(extra))
+		return processor.New("split", tmp, w.pc, processor.WithUnpublishedOperationStore(w.unpub)), append(opts, document.WithAdditionalOperations(extra))
 	}
 
-	truncated := func(keep func(i int, o *aOp) bool) *processor.OperationProcessor {
+	// A controller's pending (unpublished) operation may be in the unpublished-operation store. It is not anchored,
+	// so the property does not say whether a cut shows it; what it does say is that operations anchored later
+	// never change what an earlier cut resolves to. For a time cut both sides therefore see the same unpublished
+	// store; for a version-id cut (a position in the anchored history, which unpublished operations follow) the
+	// expectation is the anchored prefix alone.
+	truncated := func(withUnpub bool, keep func(i int, o *aOp) bool) *processor.OperationProcessor {
 		tmp := simenv.NewOpStore(w.k, "")
 		tmp.Permute = w.permute
 
@@ -1748,6 +1753,10 @@ func (w *aWorld) oracleTimeTravel() {
 			}
 		}
 
+		if withUnpub {
+			return processor.New("trunc", tmp, w.pc, processor.WithUnpublishedOperationStore(w.unpub))
+		}
+
 		return processor.New("trunc", tmp, w.pc)
 	}
 
@@ -1755,6 +1764,10 @@ func (w *aWorld) oracleTimeTravel() {
 	times := map[uint64]bool{}
 	for _, o := range pub {
 		times[o.M.Time-1], times[o.M.Time], times[o.M.Time+1] = true, true, true
+	}
+
+	if w.unpubOp != nil {
+		times[w.unpubOp.M.Time], times[w.unpubOp.M.Time+1] = true, true
 	}
 
 	var ts []uint64
@@ -1818,7 +1831,21 @@ func (w *aWorld) oracleTimeTravel() {
 			continue
 		}
 
-		want, werr := w.resolve(truncated(func(_ int, o *aOp) bool { return o.M.Time <= t }))
+		var (
+			want *protocol.ResolutionModel
+			werr error
+		)
+
+		if w.unpubOp == nil {
+			want, werr = w.resolve(truncated(false, func(_ int, o *aOp) bool { return o.M.Time <= t }))
+		} else {
+			// with a pending unpublished operation: the same question asked of the history without the later-anchored operations
+			want, werr = w.resolve(truncated(true, func(_ int, o *aOp) bool { return o.M.Time <= t }), document.WithVersionTime(vt))
+		}
+
+		if w.unpubOp != nil && w.unpubOp.M.Time <= t && countUpTo(pub, t) < len(pub) {
+			w.k.Count("probe:version-time-cut-between-unpublished-and-later-anchored")
+		}
 
 		if a, b := dump(got, gerr, true), dump(want, werr, true); a != b {
 			w.fail("C06", "version-time", fmt.Sprintf("resolving at version time %d differs from resolving only the operations anchored at or before it (%d of %d operations):\n at time:   %s\n truncated: %s", t, countUpTo(pub, t), len(pub), a, b))
@@ -1863,7 +1890,7 @@ func (w *aWorld) oracleTimeTravel() {
 
 		proc, opts := split(idOpt)
 		got, gerr := w.resolve(proc, opts...)
-		want, werr := w.resolve(truncated(func(j int, _ *aOp) bool { return j <= i }))
+		want, werr := w.resolve(truncated(false, func(j int, _ *aOp) bool { return j <= i }))
 
 		if a, b := dump(got, gerr, true), dump(want, werr, true); a != b {
 			w.fail("C06", "version-id", fmt.Sprintf("resolving at version id %s (operation %d of %d in anchoring order) differs from resolving the history up to and including it:\n at version: %s\n truncated:  %s", v, i+1, len(pub), a, b))
@@ -1920,6 +1947,11 @@ func countUpTo(pub []*aOp, t uint64) int {
 func init() {
 	for _, p := range []string{"C01", "C02", "C03", "C04", "C05", "C06", "C12"} {
 		p := p
-		register(p, Scenario{Name: "A-direct", World: "A", Weight: 1, Run: func(rc *RunCtx) *RunResult { return runWorldA(rc, p) }})
+		weight := 1
+		if p == "C06" {
+			weight = 2 // C06 has a second scenario through the whole node (world B)
+		}
+
+		register(p, Scenario{Name: "A-direct", World: "A", Weight: weight, Run: func(rc *RunCtx) *RunResult { return runWorldA(rc, p) }})
 	}
 }
